@@ -88,7 +88,7 @@ void mx_unlock_del(MX *this_, LAMDEL *fn) UNLOCK_CONTRACT(this_);
 
 /* ---- ownership wrappers (forwarder units: mutex::ready / mutex::unlock<Fn> are abstract callees that record their invocation) ------- */
 #define OWN_PTR(o) (*(MX **)&(o)->_ptr)
-#if defined(CV_HAS_own_release) || defined(CV_HAS_own_dtor)
+#if defined(CV_HAS_own_release) || defined(CV_HAS_own_dtor) || defined(CV_HAS_own_move_assign)
 int gh_ul_calls; MX *gh_ul_mx;
 #ifdef CV_HAS_mx_unlock_rel_stub
 void mx_unlock_rel_stub(MX *m, LAMREL *fn) { gh_ul_calls++; gh_ul_mx = m; }
@@ -117,6 +117,26 @@ __CPROVER_ensures(cv_exc_pending == 0)
 __CPROVER_ensures(__CPROVER_old(OWN_PTR(this_)) != 0 ==> (gh_ul_calls == 1 && gh_ul_mx == __CPROVER_old(OWN_PTR(this_))))
 __CPROVER_ensures(__CPROVER_old(OWN_PTR(this_)) == 0 ==> gh_ul_calls == 0)
 ;
+#endif
+/* ownership::operator=(ownership&&): a target that still holds a mutex releases it EXACTLY ONCE by the assignment (one unlock, on THAT mutex - otherwise
+ * the old mutex stays locked with no owner, or is released twice); afterwards the target owns exactly what the source owned and the source is empty
+ * (no second release of the moved grant later); an empty target releases nothing; self-assignment releases nothing and keeps the lock. */
+#ifdef CV_HAS_own_move_assign
+OWNT *own_move_assign(OWNT *this_, OWNT *other)
+__CPROVER_requires(cv_exc_pending == 0 && gh_ul_calls == 0 && this_ != 0 && other != 0 && __CPROVER_rw_ok(this_, sizeof(*this_)) && __CPROVER_rw_ok(other, sizeof(*other)))
+__CPROVER_requires(other == this_ || !__CPROVER_same_object(this_, other))
+__CPROVER_assigns(__CPROVER_object_whole(this_), __CPROVER_object_whole(other), gh_ul_calls, gh_ul_mx)
+__CPROVER_ensures(cv_exc_pending == 0 && __CPROVER_return_value == this_)
+__CPROVER_ensures(gh_ul_calls >= 0 && gh_ul_calls <= 1)                                                                     /* never released twice */
+__CPROVER_ensures((other != this_ && __CPROVER_old(OWN_PTR(this_)) != 0) ==> (gh_ul_calls == 1 && gh_ul_mx == __CPROVER_old(OWN_PTR(this_))))   /* a held target is released exactly once, that very mutex: never left locked with no owner */
+__CPROVER_ensures((other != this_ && __CPROVER_old(OWN_PTR(this_)) == 0) ==> gh_ul_calls == 0)                                /* an empty target releases nothing */
+__CPROVER_ensures(other != this_ ==> (OWN_PTR(this_) == __CPROVER_old(OWN_PTR(other)) && OWN_PTR(other) == 0))              /* the grant moves: target owns what the source owned, source is empty */
+__CPROVER_ensures(other == this_ ==> (gh_ul_calls == 0 && OWN_PTR(this_) == __CPROVER_old(OWN_PTR(this_))))                 /* self-assignment keeps the lock, releases nothing */
+__CPROVER_ensures(gh_allocs == __CPROVER_old(gh_allocs))
+;
+void h_own_move_assign(void) { OWNT *a = malloc(sizeof(OWNT)); OWNT *b = malloc(sizeof(OWNT)); __CPROVER_assume(a != 0 && b != 0); int self = nondet_bool(); int held = OWN_PTR(a) != 0;
+  own_move_assign(a, self ? a : b);   /* sentinels by INPUT shape (not by outcome: a change that stops releasing must be a violation, not a vacuity report) */
+  if (self) __CPROVER_assert(0, "SENTINEL reachable: self-assignment"); else if (held) __CPROVER_assert(0, "SENTINEL reachable: target held a mutex"); else __CPROVER_assert(0, "SENTINEL reachable: empty target"); }
 #endif
 /* try_lock(): never blocks (no loop, one try-lock attempt); the returned ownership is non-empty iff the attempt succeeded */
 #ifdef CV_HAS_mx_try_lock
@@ -279,4 +299,59 @@ __CPROVER_assigns()
 __CPROVER_ensures(__CPROVER_return_value == (OWN_PTR(this_) != 0 ? 1 : 0))
 ;
 void h_own_bool(void) { OWNT *a; own_bool(a); __CPROVER_assert(0, "SENTINEL reachable"); }
+#endif
+
+/* ---- construction / destruction of the mutex object itself.
+ * mutex::mutex(): a fresh mutex is UNLOCKED with NOTHING PENDING: request cell NULL and owner-private queue NULL.  MX_FRESH is the concrete
+ * image of the initial abstract state {held = 0, g = q_hi = arr = 0} of the history lemma (lemma_spec.h: CELL_OF(S0) = NULL, private queue empty):
+ * the induction base of lemma_history is this contract (h_lemma.c starts its history by a REPLACED call of the constructor).
+ * mutex::~mutex(): destruction grants nothing, resumes nobody and releases nothing: it neither writes the object (cell / private queue: a request
+ * or an owner that wrongly still exists is not silently turned into "free") nor anything else (empty assigns clause = no atomic step, no call of
+ * unlock / a resume functor, which all write ghost or object state).  With NDEBUG the two assert()s of the real destructor are compiled out. */
+#define MX_FRESH(m) (*M_CELL(m) == (void *)0 && (m)->_queue == (AWT *)0)
+#ifdef CV_HAS_mx_ctor
+void mx_ctor(MX *this_)
+__CPROVER_requires(cv_exc_pending == 0 && this_ != 0 && __CPROVER_rw_ok(this_, sizeof(*this_)))
+__CPROVER_assigns(__CPROVER_object_whole(this_))
+__CPROVER_ensures(cv_exc_pending == 0)
+__CPROVER_ensures(*M_CELL(this_) == (void *)0)                      /* unlocked: the next try-lock / lock request obtains it at once (cell NULL <=> nobody owns) */
+__CPROVER_ensures(this_->_queue == (AWT *)0)                        /* no request waiting in the owner-private queue */
+__CPROVER_ensures(gh_allocs == __CPROVER_old(gh_allocs))
+;
+#ifndef CV_HAS_mx_lemma   /* (the lemma unit only uses the contract) */
+void h_mx_ctor(void) { MX *m = malloc(sizeof(MX)); __CPROVER_assume(m != 0); mx_ctor(m); __CPROVER_assert(MX_FRESH(m), "fresh mutex = initial abstract state of the history lemma (cell NULL, private queue empty)"); __CPROVER_assert(0, "SENTINEL reachable"); }
+#endif
+#endif
+#ifdef CV_HAS_mx_dtor
+void mx_dtor(MX *this_)
+__CPROVER_requires(cv_exc_pending == 0 && this_ != 0 && __CPROVER_rw_ok(this_, sizeof(*this_)))
+__CPROVER_assigns()
+__CPROVER_ensures(cv_exc_pending == 0 && gh_allocs == __CPROVER_old(gh_allocs) && gh_frees == __CPROVER_old(gh_frees))
+;
+void h_mx_dtor(void) { MX *m = malloc(sizeof(MX)); __CPROVER_assume(m != 0); void *c0 = *M_CELL(m); AWT *q0 = m->_queue; mx_dtor(m);
+  __CPROVER_assert(*M_CELL(m) == c0 && m->_queue == q0, "destruction leaves request cell and private queue alone (grants nothing, frees nothing)"); __CPROVER_assert(0, "SENTINEL reachable"); }
+#endif
+
+/* ---- ownership(co_awaiter<mutex>&&)  (`mutex::ownership o = m.lock();` outside a coroutine): obtains the lock by exactly ONE blocking wait()
+ * on the awaiter it was given (wait() is an abstract callee here: unit mxaw_wait - one sync(), then the ownership of the awaited mutex) and then
+ * owns exactly the mutex the request was made on; the grant is not released on the way (the temporary that carried it is empty when it dies:
+ * no unlock - otherwise the new ownership would be of a mutex that is already free / somebody else's), nothing allocated. */
+#ifdef CV_HAS_own_from_awaiter
+int gh_oa_wait_calls; MXAW *gh_oa_wait_this; int gh_oa_unlock_calls;
+#ifdef CV_HAS_oa_wait_stub
+void oa_wait_stub(OWNT *ret, MXAW *a) { gh_oa_wait_calls++; gh_oa_wait_this = a; OWN_PTR(ret) = a->_owner; }       /* contract of wait(): ownership of the awaited mutex */
+#endif
+#ifdef CV_HAS_oa_unlock_del_stub
+void oa_unlock_del_stub(MX *m, void *fn) { gh_oa_unlock_calls++; }
+#endif
+void own_from_awaiter(OWNT *this_, MXAW *awt)
+__CPROVER_requires(cv_exc_pending == 0 && gh_oa_wait_calls == 0 && gh_oa_unlock_calls == 0 && __CPROVER_is_fresh(this_, sizeof(*this_)) && __CPROVER_is_fresh(awt, sizeof(*awt)))
+__CPROVER_assigns(__CPROVER_object_whole(this_), gh_oa_wait_calls, gh_oa_wait_this, gh_oa_unlock_calls)
+__CPROVER_ensures(cv_exc_pending == 0 && gh_oa_wait_calls == 1 && gh_oa_wait_this == awt)          /* the lock is waited for / obtained exactly once, on the awaiter given */
+__CPROVER_ensures(OWN_PTR(this_) == awt->_owner)                                                     /* ... and the new object owns exactly the mutex the request was made on */
+__CPROVER_ensures(awt->_owner == __CPROVER_old(awt->_owner))
+__CPROVER_ensures(gh_oa_unlock_calls == 0)                                                           /* the grant is not given back on the way */
+__CPROVER_ensures(gh_allocs == __CPROVER_old(gh_allocs))
+;
+void h_own_from_awaiter(void) { OWNT *o; MXAW *a; own_from_awaiter(o, a); __CPROVER_assert(0, "SENTINEL reachable"); }
 #endif
